@@ -203,8 +203,11 @@ func checkModified(s *RunSpec, w *world, res [][]opResult, worldName string, out
 					"physical snapshot of the operation's input differs after the call (addresses, capacities and spare capacity included)"))
 			}
 			if r.incons {
-				out = append(out, mkViol(s, w, "O4", "c: repeated calls return identical results regardless of what was called before", worldName, t, i, r.pre, r.post,
-					"the same octets decoded from a fresh buffer (expected) and from a receive buffer that is refilled in place (actual)"))
+				detail := "the same octets decoded from a fresh buffer (expected) and from a receive buffer that is refilled in place (actual)"
+				if s.Tasks[t][i].K == opVolume {
+					detail = "inside one volume operation: a result compared with the first result of the same call on the same value, or a decoded packet compared with itself as returned"
+				}
+				out = append(out, mkViol(s, w, "O4", "c: repeated calls return identical results regardless of what was called before", worldName, t, i, r.pre, r.post, detail))
 			}
 		}
 	}
